@@ -20,15 +20,17 @@ pub struct LwCfg {
     pub bw: [u32; 2],
     pub keepalive: Option<u64>,
     pub latency: usize,
+    /// side s's application calls step() only in every n-th round (a slow peer application); 1 = every round
+    pub step_every: [usize; 2],
 }
 
 impl LwCfg {
     pub fn small() -> Self {
-        Self { pwin: 4, fwin: 4, pbase: [0, 77], fbase: [0, 1000], rx_alloc: [1_000_000; 2], bw: [2_000_000; 2], keepalive: Some(5000), latency: 1 }
+        Self { pwin: 4, fwin: 4, pbase: [0, 77], fbase: [0, 1000], rx_alloc: [1_000_000; 2], bw: [2_000_000; 2], keepalive: Some(5000), latency: 1, step_every: [1, 1] }
     }
     pub fn name(&self) -> String {
         format!("pw{}fw{}pb{:x}.{:x}fb{:x}.{:x}al{}.{}bw{}.{}ka{}lat{}", self.pwin, self.fwin, self.pbase[0], self.pbase[1], self.fbase[0], self.fbase[1],
-            self.rx_alloc[0], self.rx_alloc[1], self.bw[0], self.bw[1], self.keepalive.map_or(-1, |k| k as i64), self.latency)
+            self.rx_alloc[0], self.rx_alloc[1], self.bw[0], self.bw[1], self.keepalive.map_or(-1, |k| k as i64), self.latency) + &(if self.step_every != [1, 1] { format!("se{}.{}", self.step_every[0], self.step_every[1]) } else { String::new() })
     }
     pub fn half(&self, side: usize) -> HalfConfig {
         let o = 1 - side;
@@ -241,7 +243,7 @@ pub fn run_lw(cfg: &LwCfg, si: &ScriptInfo, env: &LwEnv, ch: &mut Chooser, mut i
         if skip != 0 { tr.last_dev_round = round; }
         for side in 0..2 {
             let other = 1 - side;
-            let stepped = !((skip == 1 && side == 1) || (skip == 2 && side == 0));
+            let stepped = !((skip == 1 && side == 1) || (skip == 2 && side == 0)) && round % cfg.step_every[side].max(1) == 0;
             // application operations scheduled for this round happen before the step
             let mut extra_flush = 0;
             for (i, op) in si.ops.iter().enumerate().filter(|(_, o)| o.round == round && o.side == side) {
